@@ -126,6 +126,15 @@ PUNCTUATORS = ["[", "]", "(", ")", "{", "}", ".", "->", "++", "--", "&", "*", "+
                "<=", ">=", "==", "!=", "^", "|", "&&", "||", "?", ":", ";", "...", "=", "*=", "/=", "%=", "+=", "-=", "<<=", ">>=",
                "&=", "^=", "|=", ","]
 DIGRAPHS = ["<:", ":>", "<%", "%>"]
+# the class of every punctuator (C99 6.4.6 / 6.5: which operator or delimiter the spelling is) under the lexer's documented token vocabulary;
+# clients of CLexer and the parser's operator tables select on these names
+PUNCTUATOR_CLASS = {
+    "[": "LBRACKET", "]": "RBRACKET", "(": "LPAREN", ")": "RPAREN", "{": "LBRACE", "}": "RBRACE", ".": "PERIOD", "->": "ARROW",
+    "++": "PLUSPLUS", "--": "MINUSMINUS", "&": "AND", "*": "TIMES", "+": "PLUS", "-": "MINUS", "~": "NOT", "!": "LNOT", "/": "DIVIDE", "%": "MOD",
+    "<<": "LSHIFT", ">>": "RSHIFT", "<": "LT", ">": "GT", "<=": "LE", ">=": "GE", "==": "EQ", "!=": "NE", "^": "XOR", "|": "OR", "&&": "LAND",
+    "||": "LOR", "?": "CONDOP", ":": "COLON", ";": "SEMI", "...": "ELLIPSIS", "=": "EQUALS", "*=": "TIMESEQUAL", "/=": "DIVEQUAL", "%=": "MODEQUAL",
+    "+=": "PLUSEQUAL", "-=": "MINUSEQUAL", "<<=": "LSHIFTEQUAL", ">>=": "RSHIFTEQUAL", "&=": "ANDEQUAL", "^=": "XOREQUAL", "|=": "OREQUAL", ",": "COMMA",
+}
 
 C99_KEYWORDS = ("auto break case char const continue default do double else enum extern float for goto if inline int long "
                 "register restrict return short signed sizeof static struct switch typedef union unsigned void volatile while "
